@@ -6,13 +6,21 @@ C09 — Stopping an actor stops its whole subtree, children first; the actor tre
  of the subtree is running or resolvable by name. The actor tree stays consistent: every live actor's
  parent is live and registered, and no stopped actor remains registered."
 
-This file: the TREE half.  `Model.C09` mirrors actor/pid_tree.go (pids, names, per-node
-watchers/watchees/descendants, counter; every writer).  The invariant `WF` is proved to hold in every tree
-reachable by ANY sequence of ops (unbounded induction over the op list); the differential run in
-tools/props/c09.py compares the real `tree` with the model after every op of random scripts.
+TREE half.  `Model.C09` mirrors actor/pid_tree.go (pids, names, per-node watchers/watchees/descendants,
+counter; every writer).  The invariant `WF` is proved to hold in every tree reachable by ANY sequence of ops
+(unbounded induction over the op list); the differential run in tools/props/c09.py compares the real `tree`
+with the model after every op of random scripts.
+
+STOP half.  `Model/C09/Stop.lean` mirrors Shutdown/doStop/freeWatchees/freeChildren/PostStop/freeWatchers and
+death watch.  `shutdown_post` (Lemmas/C09/StopThm.lean) is proved by induction on the recursion with a loop
+invariant for `freeChildren`; the statements below are its corollaries, for every tree shape, every actor
+state, every depth.  The scenario differential compares the model with a real started actor system.
 -/
 import GoaktVerif.Lemmas.C09.Delete
+import GoaktVerif.Lemmas.C09.StopThm
+import GoaktVerif.Lemmas.C09.Unregister
 import GoaktVerif.Model.C09.Dump
+import GoaktVerif.Model.C09.Scenario
 
 namespace GoaktVerif.C09
 open GoaktVerif.Model.C09 GoaktVerif.Spec.C09
@@ -43,5 +51,114 @@ theorem watchers_registered (ops : List Op) (a w : Nat) (na : Node)
 -- non-vacuity: a concrete script with re-parenting, a stale `descendants` entry and a delete
 example : WF (Tree.empty.run [.addRoot ⟨10, 1, 0⟩, .addNode ⟨10, 1, 0⟩ ⟨20, 2, 1⟩, .addNode ⟨10, 1, 0⟩ ⟨30, 3, 2⟩,
     .addNode ⟨20, 2, 1⟩ ⟨40, 4, 3⟩, .attach ⟨30, 3, 2⟩ ⟨40, 4, 3⟩, .deleteNode ⟨20, 2, 1⟩]) := tree_holds _
+
+/-! ## the stop path -/
+
+/-- `q` is in the subtree of `p` that a stop has to take down: reachable from `p` through live `descendants`
+    entries, every actor on the way having its running bit set -/
+inductive ReachRun (s : Sys) (p : Nat) : Nat → Prop
+  | root : p ∈ s.running → ReachRun s p p
+  | step {x y : Nat} : ReachRun s p x → edge s.tree x y → y ∈ s.running → ReachRun s p y
+
+theorem ReachRun.running {s : Sys} {p q : Nat} (h : ReachRun s p q) : q ∈ s.running := by
+  cases h with
+  | root h => exact h
+  | step _ _ h => exact h
+
+/-- The stop statement, for a `Shutdown(p)` issued from outside any other stop (`stopping = []`; this is
+    Stop, Kill, PoisonPill, the supervisor's stop and each top-level `Shutdown` of the system stop) on a tree
+    whose live descendants graph is acyclic (`Hyp`, witnessed by a rank) and that returns (`some s'`):
+    1. every actor of the subtree is offline when the call returns, and its PostStop ran during the call;
+    2. children first: for every actor `x` of the subtree and every live child `y` of `x` that was running,
+       PostStop(y) is recorded before PostStop(x) — hence, along any chain, every descendant before its ancestor;
+    3. nobody is started by a stop;
+    4. (what the code guarantees about registration) every actor registered before is STILL registered when the
+       call returns — death watch removes it later, asynchronously (the race the property text glosses over);
+    5. once death watch has handled the `Terminated` messages it was sent during the call, none of the actors
+       they name is registered. -/
+def stop_full : Prop :=
+  ∀ (rank : Nat → Nat) (fuel : Nat) (s : Sys) (p : Nat) (s' : Sys),
+    s.stopping = [] → Hyp rank s.tree → s.shutdown fuel p = some s' →
+    (∀ q, ReachRun s p q → q ∉ s'.running ∧ ∃ evs, s'.log = s.log ++ evs ∧ Ev.postStop q ∈ evs)
+    ∧ (∀ x y, ReachRun s p x → edge s.tree x y → y ∈ s.running → Before s'.log (Ev.postStop y) (Ev.postStop x))
+    ∧ (∀ x, x ∈ s'.running → x ∈ s.running)
+    ∧ (∀ x n, aget x s.tree.pids = some n → ∃ n', aget x s'.tree.pids = some n' ∧ n'.pid = n.pid)
+    ∧ (∀ dw q, q ≠ NOS → q ∈ terminatedTo dw (s'.log.drop s.log.length) →
+          aget q (s'.drainDeathWatch dw s.log.length).tree.pids = none)
+
+theorem subtree_offline (rank : Nat → Nat) (fuel : Nat) (s : Sys) (p : Nat) (s' : Sys)
+    (h0 : s.stopping = []) (hyp : Hyp rank s.tree) (h : s.shutdown fuel p = some s') (q : Nat)
+    (hq : ReachRun s p q) : q ∉ s'.running := by
+  have post := shutdown_post rank fuel s p s' hyp h
+  induction hq with
+  | root _ => exact post.self_off
+  | step hx he hy ih =>
+    rcases post.closed _ _ hx.running ih he with h1 | h1
+    · exact h1
+    · rw [h0] at h1; simp at h1
+
+theorem stop_holds : stop_full := by
+  intro rank fuel s p s' h0 hyp h
+  have post := shutdown_post rank fuel s p s' hyp h
+  refine ⟨?_, ?_, post.run_sub, ?_, ?_⟩
+  · intro q hq
+    obtain ⟨evs, hl, hp⟩ := post.log_ext
+    exact ⟨subtree_offline rank fuel s p s' h0 hyp h q hq, evs, hl,
+      hp q hq.running (subtree_offline rank fuel s p s' h0 hyp h q hq)⟩
+  · intro x y hx he hy
+    exact post.order x y hx.running (subtree_offline rank fuel s p s' h0 hyp h x hx) he hy (by rw [h0]; simp)
+  · intro x n hn
+    obtain ⟨n', hn', _, hp, _⟩ := (post.shape x).1 n hn
+    exact ⟨n', hn', hp⟩
+  · intro dw q hq hmem
+    exact drain_unregisters s' dw s.log.length q hq hmem
+
+/-! ### the hypotheses are satisfiable: a decidable check of `Hyp` and a concrete system -/
+
+def hypB (rank : Nat → Nat) (t : Tree) : Bool :=
+  t.pids.all fun kn => kn.2.desc.all fun e =>
+    match t.live ⟨e.1, e.2⟩ with
+    | some n => decide (rank n.pid.id < rank kn.1) && kn.1 != NOS
+    | none => true
+
+theorem aget_mem {α : Type} (k : Nat) (l : List (Nat × α)) (v : α) (h : aget k l = some v) : (k, v) ∈ l := by
+  induction l with
+  | nil => simp at h
+  | cons e l ih =>
+    rw [aget_cons] at h
+    split at h
+    · rename_i hk
+      simp only [Option.some.injEq] at h
+      subst h; subst hk
+      exact List.mem_cons_self
+    · exact List.mem_cons_of_mem _ (ih h)
+
+theorem hyp_of_hypB (rank : Nat → Nat) (t : Tree) (h : hypB rank t = true) : Hyp rank t := by
+  unfold hypB at h
+  simp only [List.all_eq_true] at h
+  have key : ∀ x y, edge t x y → rank y < rank x ∧ x ≠ NOS := by
+    intro x y ⟨nx, e, n, hx, he, hl, hid⟩
+    have := h (x, nx) (aget_mem x t.pids nx hx) e he
+    simp only [hl, Bool.and_eq_true, decide_eq_true_eq, bne_iff_ne, ne_eq] at this
+    rw [hid] at this
+    exact this
+  exact ⟨fun x y he => (key x y he).1, fun y he => (key NOS y he).2 rfl⟩
+
+/-- user guardian 3 with death watch 4 watching everybody; a1(11) has children a2(12), a3(13); a2 has a4(14) -/
+def exSys : Sys :=
+  let sp := fun (s : Sys) (a b : Nat) => s.spawn 4 ⟨a, a, 0⟩ ⟨b, b, 0⟩
+  sp (sp (sp (sp Scenario.sys0 3 11) 11 12) 11 13) 12 14
+
+example : Hyp (fun x => 100 - x) exSys.tree := hyp_of_hypB _ _ (by decide)
+
+example : (exSys.shutdown 10 11).map (fun s => (postStops s.log, s.running)) = some ([13, 14, 12, 11], [1, 2, 3, 4]) := by
+  decide
+
+/-- The full statement of C09 as this framework reads it (see the clause-by-clause comments on `tree_full`
+    and `stop_full`; "not resolvable by name when the stop returns" is NOT claimed — clause 4 of `stop_full`
+    states the opposite, which is what the code does, and clause 5 the eventual form). -/
+def C09_full : Prop := tree_full ∧ stop_full
+
+theorem C09_holds : C09_full := ⟨tree_holds, stop_holds⟩
 
 end GoaktVerif.C09
